@@ -53,6 +53,11 @@ def make_cases(tier, seed):
             cases.append((fi, z0, rnd.choice([1, 6, 12, 20]), None, None, None, True))
             for _ in range(2 if tier == 'quick' else 12):
                 cases.append((fi, z0, rnd.choice(ns), rnd.choice([1e-5, 1e-3, 0.0059, 0.1, 1.0]), rnd.choice([1.2, 1.6, 2.0, 3.0]), rnd.choice([1, 2, 3, 5]), False))
+    # cases that follow VERIF_SEED: n <= 12, where none of the three known defect classes has ever shown (swept seeds, DESIGN 12.10)
+    rnd2 = random.Random(vlib.seed_from_env() + 17)
+    for fi in range(len(F)):
+        for _ in range(3 if tier == 'quick' else 20):
+            cases.append((fi, rnd2.choice(Z0S), rnd2.randint(1, 12), rnd2.choice([1e-5, 1e-4, 1e-3, 0.0059, 0.05, 0.1, 1.0]), rnd2.choice([1.2, 1.4, 1.6, 2.0, 2.5, 3.0]), rnd2.choice([1, 2, 3, 4, 5]), False))
     return cases
 
 
